@@ -649,6 +649,21 @@ func stripID(d bson.D) bson.D {
 	return out
 }
 
+func firstByteDiff(a, b []byte) int {
+	for i := 0; i < len(a) && i < len(b); i++ {
+		if a[i] != b[i] {
+			return i
+		}
+	}
+	if len(a) != len(b) {
+		if len(a) < len(b) {
+			return len(a)
+		}
+		return len(b)
+	}
+	return -1
+}
+
 func init() {
 	Register("C17", "exploration", func(c *Ctx) {
 		r := c.R
@@ -661,7 +676,7 @@ func init() {
 		// pass 1: count slots per call
 		type counts struct{ args, results int }
 		cnt := make([]counts, len(calls))
-		var argPreserved, readOnly, streamedSlots, optionChecks int64
+		var argPreserved, readOnly, streamedSlots, optionChecks, largeWrites int64
 		for ci, cl := range calls {
 			w := world.New()
 			c17Setup(w)
@@ -797,6 +812,46 @@ func init() {
 				w.Close()
 			}
 		}
+		// the bytes handed to an upload are an argument too: a write that fills the production buffer (16 MiB) in one
+		// call, and an upload from a reader over the caller's slice, leave the slice as it was
+		{
+			data := make([]byte, 16<<20+100000)
+			for k := range data {
+				data[k] = byte(k * 2654435761 >> 13)
+			}
+			snap := append([]byte(nil), data...)
+			w := world.New()
+			b := lungo.NewBucket(w.Client.Database("d"))
+			if st, err := b.OpenUploadStreamWithID(w.Ctx, "big1", "big1"); err != nil {
+				r.Broken("open upload stream: %v", err)
+			} else {
+				_, werr := st.Write(data)
+				cerr := st.Close()
+				if werr != nil || cerr != nil {
+					r.Broken("large write: %v / %v", werr, cerr)
+				}
+				largeWrites++
+				if !bytes.Equal(data, snap) {
+					r.Violation("argument-modified:UploadStream.Write", fmt.Sprintf("UploadStream.Write of %d bytes in one call changed the caller's slice (first difference at offset %d)", len(data), firstByteDiff(data, snap)), map[string]interface{}{"call": "UploadStream.Write", "bytes": len(data)})
+					copy(data, snap)
+				}
+			}
+			if err := b.UploadFromStreamWithID(w.Ctx, "big2", "big2", bytes.NewReader(data)); err != nil {
+				r.Broken("large upload: %v", err)
+			}
+			largeWrites++
+			if !bytes.Equal(data, snap) {
+				r.Violation("argument-modified:UploadFromStream", fmt.Sprintf("UploadFromStreamWithID over a bytes.Reader of %d bytes changed the slice behind the reader (first difference at offset %d)", len(data), firstByteDiff(data, snap)), map[string]interface{}{"call": "UploadFromStreamWithID", "bytes": len(data)})
+			}
+			// and the stored file is the content
+			for _, id := range []string{"big1", "big2"} {
+				var buf bytes.Buffer
+				if _, err := b.DownloadToStream(w.Ctx, id, &buf); err != nil || !bytes.Equal(buf.Bytes(), snap) {
+					r.Violation("large-upload-differs", fmt.Sprintf("the file %s uploaded from %d bytes downloads as %d bytes (err %v, first difference at offset %d)", id, len(snap), buf.Len(), err, firstByteDiff(buf.Bytes(), snap)), map[string]interface{}{"file": id})
+				}
+			}
+			w.Close()
+		}
 		// option values are arguments too: an options object handed to a call comes back unchanged (and can be shared
 		// between calls), a pointer inside it is not kept
 		{
@@ -850,6 +905,7 @@ func init() {
 		}
 		r.Set("option_arguments_checked", optionChecks)
 		r.Set("slots_mutated_between_open_and_close_of_an_upload", streamedSlots)
+		r.Set("uploads_filling_the_production_buffer", largeWrites)
 		var totalArgs, totalRes int64
 		var names []interface{}
 		for ci, k := range cnt {
